@@ -117,13 +117,16 @@ func applyRewrite(rw Rewrite) ([]byte, error) {
 			return nil, fmt.Errorf("rewrite: function %s not found in %s/%s", k, rw.Dir, rw.File)
 		}
 	}
-	var buf bytes.Buffer
-	if err := printer.Fprint(&buf, fset, f); err != nil {
-		return nil, err
-	}
-	// imports that became unused would break the build: keep them referenced
-	src := buf.String()
-	var keep []string
+	// imports that became unused would break the build: blank them
+	used := map[string]bool{}
+	ast.Inspect(f, func(n ast.Node) bool {
+		if sel, ok := n.(*ast.SelectorExpr); ok {
+			if id, ok := sel.X.(*ast.Ident); ok {
+				used[id.Name] = true
+			}
+		}
+		return true
+	})
 	for _, imp := range f.Imports {
 		name := ""
 		if imp.Name != nil {
@@ -131,13 +134,23 @@ func applyRewrite(rw Rewrite) ([]byte, error) {
 		} else {
 			p := strings.Trim(imp.Path.Value, "\"")
 			name = p[strings.LastIndex(p, "/")+1:]
+			if strings.HasPrefix(name, "v") && len(name) <= 3 && strings.Count(p, "/") > 0 {
+				q := p[:strings.LastIndex(p, "/")]
+				name = q[strings.LastIndex(q, "/")+1:]
+			}
 		}
 		if name == "_" || name == "." {
 			continue
 		}
-		keep = append(keep, name)
+		if !used[name] {
+			imp.Name = ast.NewIdent("_")
+		}
 	}
-	_ = keep
+	var buf bytes.Buffer
+	if err := printer.Fprint(&buf, fset, f); err != nil {
+		return nil, err
+	}
+	src := buf.String()
 	return []byte(src), nil
 }
 
